@@ -20,18 +20,25 @@ Definition enc_entry (s : st) (x : entry) : T :=
   | LF e => Tl [Tn 5; Tnat (lbl_of s e)]
   end.
 
-(* None -> [0]; int -> [1, z]; error triple -> [2]; list -> [3, [items]] *)
-Fixpoint enc_py (v : pyval) : T :=
-  match v with
-  | PNone => Tl [Tn 0]
-  | PInt z => Tl [Tn 1; Tn z]
-  | PErr => Tl [Tn 2]
-  | PList l => Tl [Tn 3; Tl (map enc_py l)]
-  end.
+(* None -> [0]; int -> [1, z]; error triple -> [2]; list -> [3, [items]];
+   the Value of event d -> [4, what that Value holds] (getValue(recursive=False), followed through
+   nested Values; a Value only ever refers to younger events, fuel = number of events) *)
+Fixpoint enc_py (fuel : nat) (s : st) {struct fuel} : pyval -> T :=
+  fix go (v : pyval) : T :=
+    match v with
+    | PNone => Tl [Tn 0]
+    | PInt z => Tl [Tn 1; Tn z]
+    | PErr => Tl [Tn 2]
+    | PList l => Tl [Tn 3; Tl (map go l)]
+    | PRef d => match fuel with
+                | O => Tl [Tn 4]
+                | S f => Tl [Tn 4; enc_py f s (vv (val s d))]
+                end
+    end.
 
 Definition enc_final (s : st) (e : nat) : T :=
   let v := val s e in
-  Tl [Tnat (lbl_of s e); enc_py (vv v); Tbool (verrors v); Tbool (vresult v); Tbool (vpromise v);
+  Tl [Tnat (lbl_of s e); enc_py (next s) s (vv v); Tbool (verrors v); Tbool (vresult v); Tbool (vpromise v);
       Tnat (waiting s e)].
 
 Definition obs_state (s : st) : T :=
